@@ -34,6 +34,7 @@ struct Acc {
     empty_units_mid_message: u64,
     msgs_empty: u64,
     msgs_trailing_semicolon: u64,
+    msgs_payload_newline: u64,
     by_delivery: BTreeMap<&'static str, u64>,
     order_checked: u64,
     pendings: u64,
@@ -64,13 +65,17 @@ fn gen_message(gen: &Gen, acc: &mut Acc, rng: &mut Rng, max_units: usize) -> Seq
         }
         _ => {}
     }
-    let lit = LitOpts { payload_newline: false, wild_payload: false, max_payload: 4 };
-    let k = rng.range(1, max_units);
+    // one message in five is free of faults of any kind and may then carry newlines inside
+    // string / block payloads (a faulty message with a payload newline is outside C06's premise):
+    // the path must survive the payload newline, also when process sees it at the end of a read
+    let clean = rng.chance(1, 5);
+    let lit = LitOpts { payload_newline: clean, wild_payload: false, max_payload: 4 };
+    let k = if rng.chance(1, 25) { rng.range(9, 12) } else { rng.range(1, max_units) };
     let mut path: Vec<String> = Vec::new();
     let mut units = Vec::new();
     for _ in 0..k {
         let mut di = rng.below(gen.iface.decls.len());
-        for _ in 0..8 {
+        for _ in 0..(if clean { 200 } else { 8 }) {
             if gen.iface.decls[di].fails.is_none() {
                 break;
             }
@@ -80,7 +85,7 @@ fn gen_message(gen: &Gen, acc: &mut Acc, rng: &mut Rng, max_units: usize) -> Seq
         // sometimes the unit fails at execution (its header still resolves, so the path
         // advances as for any other unit and later relative units depend on it)
         let mut fault = None;
-        if rng.chance(1, 7) {
+        if !clean && rng.chance(1, 7) {
             let f = *rng.pick(&EXEC_FAULTS);
             let cands: Vec<usize> = (0..gen.iface.decls.len())
                 .filter(|d| gen.fault_applicable(*d, f) && (f == Fault::Handler || gen.iface.decls[*d].fails.is_none()))
@@ -108,7 +113,7 @@ fn gen_message(gen: &Gen, acc: &mut Acc, rng: &mut Rng, max_units: usize) -> Seq
     // the message is refused there (one error, nothing after it runs) or the units after it
     // resolve exactly as if it were not there
     let mut empty_at: Option<usize> = None;
-    if units.len() >= 2 && rng.chance(1, 8) {
+    if !clean && units.len() >= 2 && rng.chance(1, 8) {
         let k = rng.range(1, units.len() - 1);
         let mut e = units[0].clone();
         e.abs = false;
@@ -124,7 +129,7 @@ fn gen_message(gen: &Gen, acc: &mut Acc, rng: &mut Rng, max_units: usize) -> Seq
         acc.empty_units_mid_message += 1;
     }
     // sometimes a last unit that resolves to nothing from the current path
-    if rng.chance(1, 5) {
+    if !clean && rng.chance(1, 5) {
         if let Some(u) = gen.undefined_rel_unit(&path, rng) {
             acc.units_undefined_last += 1;
             units.push(u);
@@ -135,9 +140,15 @@ fn gen_message(gen: &Gen, acc: &mut Acc, rng: &mut Rng, max_units: usize) -> Seq
         acc.msgs_trailing_semicolon += 1;
     }
     let ast = MsgAst { units, trailing_semicolon: trailing };
+    if ast.has_payload_newline() {
+        acc.msgs_payload_newline += 1;
+    }
     let mut st = Style::plain();
     st.seed = rng.next();
     st.case = rng.below(3) as u8;
+    if rng.chance(1, 4) {
+        st.ws_unit_start = vec![*rng.pick(&[b' ', b'\t', 0x0bu8])];
+    }
     // a unit counts as failing if it is labelled faulty or its declaration's handler fails
     let units: Vec<(Vec<Expect>, Vec<Expect>, bool)> = ast
         .units
@@ -332,7 +343,9 @@ pub fn run(ctx: &Ctx) -> PropResult {
     let (mut rel, mut abs, mut com, mut und, mut emp, mut tr, mut ord, mut pend) = (0, 0, 0, 0, 0, 0, 0, 0);
     let mut failing_mid = 0;
     let mut empty_mid = 0;
+    let mut pnl = 0;
     for acc in accs {
+        pnl += acc.msgs_payload_newline;
         distinct.extend(acc.distinct);
         trees.extend(acc.trees);
         for (k, v) in acc.by_delivery {
@@ -367,6 +380,7 @@ pub fn run(ctx: &Ctx) -> PropResult {
     res.cov("empty_units_in_the_middle_of_a_message", empty_mid);
     res.cov("empty_or_whitespace_messages", emp);
     res.cov("messages_ending_in_semicolon", tr);
+    res.cov("fault_free_messages_with_a_newline_inside_a_payload", pnl);
     res.cov("run_logs_order_checked", ord);
     res.cov("pending_returns_injected", pend);
     res.cov("executions_by_delivery", J::Obj(by_delivery.into_iter().map(|(k, v)| (k.to_string(), J::Int(v as i64))).collect()));
